@@ -180,10 +180,28 @@ def changes_trigger_wakeup(ctx):
     for q, fi in m.functions.items():
         if not fi.module.name == 'frappy.modulebase' or fi.name == '__init__':
             continue
-        st = [(t, v, s) for t, v, s in attr_stores(fi.node) if t.attr in ('interval', 'fast_flag') and
-              ('pollInfo' in src(t.value) or (dotted(t.value) == 'self' and fi.cls is not None and fi.cls.name == 'PollInfo'))]
+        def _is_pollinfo(e, fi=fi):
+            if 'pollInfo' in src(e) or (dotted(e) == 'self' and fi.cls is not None and fi.cls.name == 'PollInfo'):
+                return True
+            return isinstance(e, ast.Name) and any('pollInfo' in src(o) for o in origins(e, fi.node) if o is not e)
+        st = [(t, v, s) for t, v, s in attr_stores(fi.node) if t.attr in ('interval', 'fast_flag') and _is_pollinfo(t.value)]
         if not st:
             continue
+        # the change is applied whenever the module is polled at all: the only condition on the way to the store is the existence
+        # of the PollInfo (a guard like `flag != pinfo.fast_flag` drops a changed interval while the flag stays the same)
+        for t, v, s in st:
+            for g in [a for a in ancestors(s) if isinstance(a, (ast.If, ast.While)) and any(a is x for x in body_walk(fi.node))]:
+                tst = g.test
+                params = {a.arg for a in fi.node.args.args}
+                # the harmful idiom: 'skip when unchanged' - a parameter compared with the stored poll state
+                unchanged = [c for c in ast.walk(tst) if isinstance(c, ast.Compare) and len(c.ops) == 1 and isinstance(c.ops[0], (ast.Eq, ast.NotEq, ast.Is, ast.IsNot))
+                             and any(isinstance(x, ast.Name) and x.id in params for x in (c.left, c.comparators[0]))
+                             and any(isinstance(x, ast.Attribute) and x.attr in ('fast_flag', 'interval') for x in (c.left, c.comparators[0]))]
+                plain = not unchanged
+                ctx.check(plain, f'{fi.qualname}:store {t.attr} not skipped when one input is unchanged', g, f'`{src(tst)}`',
+                          f'`{src(s)}` is skipped unless `{src(tst)}`: a call that changes the interval while the other inputs of the guard stay the '
+                          'same (setFastPoll(True, 0.25) after setFastPoll(True, 1.0)) is silently dropped - the module keeps being polled at the '
+                          'old interval', fi)
         n += 1
         ctx.analysed(fi)
         cfg = CFG(fi.node, m, fi.module)
@@ -224,6 +242,14 @@ def changes_trigger_wakeup(ctx):
                       'a changed poll interval or fast polling takes effect only after the old (long) interval expired', pt)
         # the wait time is the minimum over ALL modules of the thread
         for loop in [x for x in walk_local(l) if isinstance(x, ast.For) and src(x.iter) == 'modules']:
+            # ... each taken with ITS OWN settings: inside a loop over the modules of the thread nothing per-module is read from
+            # `self` (the module that happens to own the thread)
+            own = [x for x in walk_local(loop) if isinstance(x, ast.Attribute) and dotted(x.value) == 'self'
+                   and x.attr in ('slowinterval', 'pollinterval', 'pollInfo', 'fast_pollfactor', 'enablePoll')]
+            ctx.check(not own, f'{pt.qualname}:per-module settings are read from the loop variable', own[0] if own else loop,
+                      f'loop over `{src(loop.iter)}` reads the settings of `{src(loop.target)}`',
+                      f'`{src(own[0]) if own else ""}` inside the loop over the modules of the poll thread: the setting of the thread owner is used for '
+                      'every module - a module with a shorter interval than the owner is refreshed at the owner\'s interval', pt)
             for a in [x for x in walk_local(loop) if isinstance(x, ast.Assign) and src(x.targets[0]) == 'wait_time']:
                 v = a.value
                 acc = isinstance(v, ast.Call) and dotted(v.func) == 'min' and any(src(x) == 'wait_time' for x in v.args)
